@@ -624,6 +624,8 @@ def run(case):
     m = Machine(case['cls'], case['bits'], case['pos'])
     m.invariant('construction')
     for s in case['steps']:
+        if len(m.bits) > c03.MAX_LEN:
+            break
         m.step(s)
     nt = m.good_reads_from_nonzero >= 1 and (m.failed_reads >= 1 or m.len_changes >= 1)
     if len(case['steps']) <= 3:
